@@ -85,18 +85,14 @@ Proof.
   assert (X : existsb (mismatch (results_of atts)) atts = false).
   { apply not_true_is_false. intros C. apply existsb_exists in C. destruct C as (a & Ha & M).
     rewrite (N a Ha) in M. discriminate. }
-  rewrite X. destruct (_ && _); discriminate.
+  rewrite X. discriminate.
 Qed.
 
-(** C01 on fresh worlds: the only class left is the missing boundary *)
+(** C01 on fresh worlds: no class is left *)
 Lemma c01_holds_when_fresh_l w folder rs p clk :
-  WInv w -> WFresh w -> target_folder folder p <> [] -> is_noboundary (p_shape p) = false ->
-  spec_C01 w folder rs p clk.
+  WInv w -> WFresh w -> target_folder folder p <> [] -> spec_C01 w folder rs p clk.
 Proof.
-  intros I F Ht Nb. apply c01_accept_iff_visible_l; [exact I|].
+  intros I F Ht. apply c01_accept_iff_visible_l; [exact I|].
   pose proof (c01_dup_class_needs_stale_l w folder rs p clk F Ht) as D.
-  unfold classify in *. destruct (p_ok p); simpl in *; [|reflexivity].
-  destruct (deliver_all w folder rs p clk 0) as [w' atts].
-  destruct (existsb (mismatch (results_of atts)) atts); [congruence|].
-  rewrite Nb. reflexivity.
+  destruct (classify w folder rs p clk) as [[]|]; [congruence | reflexivity].
 Qed.
